@@ -411,17 +411,26 @@ def r6_inverse_map(m):
     ok = (iter_ok and bounded) or not prefixy
     # the same discipline where the map is built: keys nested in a map entry are expanded occurrence by occurrence
     r.instances += 1
-    nest = [lp for lp in A.body_nodes(srm.node) if isinstance(lp, ast.For) and
-            any(isinstance(c, ast.Call) and isinstance(c.func, ast.Attribute) and c.func.attr == "replace" and len(c.args) >= 2
-                and isinstance(c.args[1], ast.Subscript) for s_ in lp.body for c in ast.walk(s_)) and isinstance(lp.target, ast.Name)
-            and not any(isinstance(x, ast.For) for s_ in lp.body for x in ast.walk(s_))]
+    # (the loop lives in string_replace_map itself or in a helper / a method of the map class in the same module; the inverse
+    #  map's own loop, decided above, is not it)
+    sl_path = m.modfile.get("fparser.common.splitline")
+    nest = []
+    for (path_, q_), fi in sorted(m.funcs.items()):
+        if path_ != sl_path or fi is f:
+            continue
+        for lp in A.body_nodes(fi.node):
+            if isinstance(lp, ast.For) and isinstance(lp.target, ast.Name) and \
+                    any(isinstance(c, ast.Call) and isinstance(c.func, ast.Attribute) and c.func.attr == "replace" and len(c.args) >= 2
+                        and isinstance(c.args[1], ast.Subscript) for s_ in lp.body for c in ast.walk(s_)) \
+                    and not any(isinstance(x, ast.For) for s_ in lp.body for x in ast.walk(s_)):
+                nest.append((fi, lp))
     if len(nest) != 1:
         r.error("string_replace_map: the loop expanding keys nested in a map entry was not found (anchor changed)")
     else:
-        lp = nest[0]
+        srm_, lp = nest[0]
         src_ = lp.iter
         if isinstance(src_, ast.Name):
-            defs = [n.value for n in A.body_nodes(srm.node) if isinstance(n, ast.Assign) and any(A.text(t) == src_.id for t in n.targets)]
+            defs = [n.value for n in A.body_nodes(srm_.node) if isinstance(n, ast.Assign) and any(A.text(t) == src_.id for t in n.targets)]
         else:
             defs = [src_]
 
@@ -438,7 +447,7 @@ def r6_inverse_map(m):
                    "parenthesised group (`g(1.0d-3, 1.0d-3, 5.0e0)`) is then expanded once only / all at once, and the placeholder left "
                    "behind is re-bound to a different literal one level down" % (
                        "over the distinct keys rather than the occurrences" if not multi else "without bounding the replacement to one occurrence"),
-                   m.loc(srm, lp))
+                   m.loc(srm_, lp))
     r.ob(ok, "StringReplaceDict.__call__: iterates the findall() occurrences: %s; bounded replace: %s; prefix-prone key formats: %s" % (iter_ok, bounded, prefixy))
     if not ok:
         r.fail("StringReplaceDict.__call__|unbounded", "StringReplaceDict.__call__ %s while the key format %s makes one placeholder a prefix of another "
